@@ -68,6 +68,7 @@ fn run(key: &str, a: &[String]) -> String {
 }
 
 mod more;
+mod freezer;
 
 fn main() {
     let args: Vec<String> = std::env::args().skip(1).collect();
